@@ -1,11 +1,14 @@
 //! C02 — fetches respect the delegate threshold and never rewind delegate sigrefs.
 //! Runs the real `radicle_fetch::{pull, clone}` on real repositories (see `fetchlab`, harness/c01/src/lib.rs).
+mod worker;
+
 use fetchlab::{gen, Lab, Prop};
 use verif_common::*;
 
 fn main() {
     let mut ctx = Ctx::from_args("C02");
     let mut lab = Lab::new();
+    lab.worker = Some(Box::new(worker::run));
     let threads = std::env::var("FETCHLAB_THREADS").ok().and_then(|t| t.parse().ok()).unwrap_or(8);
     let (fixed, is_replay) = ctx.fixed_inputs();
     for e in lab.run_many(&fixed, Prop::C02, threads) {
